@@ -456,28 +456,21 @@ Qed.
 Definition hook_eq_dec (a b : hook) : {a = b} + {a <> b}.
 Proof. decide equality; try apply Z.eq_dec; apply Nat.eq_dec. Defined.
 
+Ltac zb :=
+  repeat match goal with
+         | |- context [?a <=? ?b] => destruct (Z.leb_spec a b)
+         | |- context [?a <? ?b] => destruct (Z.ltb_spec a b)
+         end; cbn [andb]; try reflexivity; try (exfalso; lia).
+
 Lemma count_span_n_end i a k n :
   count_occ hook_eq_dec (span_n i a k) (AfterEnd i n) =
   if (a <=? n) && (n <? a + Z.of_nat k) then 1%nat else 0%nat.
 Proof.
   revert a. induction k as [|k IH]; intro a.
-  - simpl. replace (a + 0) with a by lia. destruct (a <=? n) eqn:E1, (n <? a) eqn:E2; try reflexivity.
-    apply Z.leb_le in E1. apply Z.ltb_lt in E2. lia.
-  - rewrite span_n_S. simpl app. rewrite count_occ_cons_neq by discriminate.
-    rewrite IH. destruct (Z.eq_dec a n) as [->|Hn].
-    + rewrite count_occ_cons_eq by reflexivity.
-      replace (n + 1 <=? n) with false by (symmetry; apply Z.leb_gt; lia). simpl.
-      replace (n <=? n) with true by (symmetry; apply Z.leb_le; lia).
-      replace (n <? n + Z.of_nat (S k)) with true by (symmetry; apply Z.ltb_lt; lia). reflexivity.
-    + rewrite count_occ_cons_neq by congruence.
-      destruct (a + 1 <=? n) eqn:E1, (a <=? n) eqn:E2, (n <? a + 1 + Z.of_nat k) eqn:E3, (n <? a + Z.of_nat (S k)) eqn:E4;
-        try reflexivity; exfalso;
-        repeat match goal with
-               | H : (_ <=? _) = true |- _ => apply Z.leb_le in H
-               | H : (_ <=? _) = false |- _ => apply Z.leb_gt in H
-               | H : (_ <? _) = true |- _ => apply Z.ltb_lt in H
-               | H : (_ <? _) = false |- _ => apply Z.ltb_ge in H
-               end; lia.
+  - cbn [span_n seq map flat_map count_occ]. zb.
+  - rewrite span_n_S. cbn [app]. destruct (Z.eq_dec a n) as [->|Hn].
+    + rewrite count_occ_cons_eq by reflexivity. rewrite count_occ_cons_neq by discriminate. rewrite IH. zb.
+    + rewrite count_occ_cons_neq by congruence. rewrite count_occ_cons_neq by discriminate. rewrite IH. zb.
 Qed.
 
 Lemma count_span_n_start i a k n :
@@ -485,25 +478,11 @@ Lemma count_span_n_start i a k n :
   if (a + 1 <=? n) && (n <? a + 1 + Z.of_nat k) then 1%nat else 0%nat.
 Proof.
   revert a. induction k as [|k IH]; intro a.
-  - simpl. replace (a + 1 + 0) with (a + 1) by lia.
-    destruct (a + 1 <=? n) eqn:E1, (n <? a + 1) eqn:E2; try reflexivity.
-    apply Z.leb_le in E1. apply Z.ltb_lt in E2. lia.
-  - rewrite span_n_S. simpl app. rewrite count_occ_cons_neq by discriminate.
-    rewrite IH. destruct (Z.eq_dec (a + 1) n) as [<-|Hn].
-    + rewrite count_occ_cons_eq by reflexivity.
-      replace (a + 1 + 1 <=? a + 1) with false by (symmetry; apply Z.leb_gt; lia). simpl.
-      replace (a + 1 <=? a + 1) with true by (symmetry; apply Z.leb_le; lia).
-      replace (a + 1 <? a + 1 + Z.of_nat (S k)) with true by (symmetry; apply Z.ltb_lt; lia). reflexivity.
-    + rewrite count_occ_cons_neq by congruence.
-      destruct (a + 1 + 1 <=? n) eqn:E1, (a + 1 <=? n) eqn:E2, (n <? a + 1 + 1 + Z.of_nat k) eqn:E3,
-               (n <? a + 1 + Z.of_nat (S k)) eqn:E4;
-        try reflexivity; exfalso;
-        repeat match goal with
-               | H : (_ <=? _) = true |- _ => apply Z.leb_le in H
-               | H : (_ <=? _) = false |- _ => apply Z.leb_gt in H
-               | H : (_ <? _) = true |- _ => apply Z.ltb_lt in H
-               | H : (_ <? _) = false |- _ => apply Z.ltb_ge in H
-               end; lia.
+  - cbn [span_n seq map flat_map count_occ]. zb.
+  - rewrite span_n_S. cbn [app]. rewrite count_occ_cons_neq by discriminate.
+    destruct (Z.eq_dec (a + 1) n) as [<-|Hn].
+    + rewrite count_occ_cons_eq by reflexivity. rewrite IH. zb.
+    + rewrite count_occ_cons_neq by congruence. rewrite IH. zb.
 Qed.
 
 (** for an identifier that is counting at the start of a history: AfterEpochEnd(n) is delivered exactly
@@ -524,18 +503,8 @@ Proof.
   destruct (lookup_In _ _ _ Hl) as [_ Hi].
   exists e'. split; [exact L|]. split; [exact M|].
   rewrite Hp. unfold expected. rewrite Hs, Hi. unfold span. split; intro n.
-  - rewrite count_span_n_end. replace (e_cur e + Z.of_nat (Z.to_nat (e_cur e' - e_cur e))) with (e_cur e') by lia.
-    reflexivity.
-  - rewrite count_span_n_start.
-    replace (e_cur e + 1 + Z.of_nat (Z.to_nat (e_cur e' - e_cur e))) with (e_cur e' + 1) by lia.
-    replace (n <? e_cur e' + 1) with (n <=? e_cur e'); [reflexivity|].
-    destruct (n <=? e_cur e') eqn:E1, (n <? e_cur e' + 1) eqn:E2; try reflexivity; exfalso;
-      repeat match goal with
-             | H : (_ <=? _) = true |- _ => apply Z.leb_le in H
-             | H : (_ <=? _) = false |- _ => apply Z.leb_gt in H
-             | H : (_ <? _) = true |- _ => apply Z.ltb_lt in H
-             | H : (_ <? _) = false |- _ => apply Z.ltb_ge in H
-             end; lia.
+  - rewrite count_span_n_end. zb.
+  - rewrite count_span_n_start. zb.
 Qed.
 
 (* ---------------------------------------------------------------- single-block facts *)
@@ -590,6 +559,31 @@ Qed.
 Lemma nonpositive_duration_ticks_every_block t e :
   e_started e = true -> e_dur e <= 0 -> e_start e <= t -> e_cur_start e <= t -> should_tick e t = true.
 Proof. intros Hs Hd H0 H1. apply should_tick_exact. split; [exact H0|right; lia]. Qed.
+
+(** advance by exactly one <-> the property's condition *)
+Lemma tick_iff_cond now t h e :
+  wf_info now e -> (now <= t \/ 0 <= e_dur e) ->
+  (e_cur (fst (step_info t h e)) = e_cur e + 1 <-> cond e t).
+Proof.
+  intros W Ht.
+  assert (X : P_info t h (snd (step_info t h e)) e (fst (step_info t h e))).
+  { apply (step_info_P now); auto. apply proj_all. intros x Hx. apply (step_info_hook_ids _ _ _ _ Hx). }
+  apply X.
+Qed.
+
+(** one block moves an identifier by at most one epoch and delivers at most one pair of hooks for it *)
+Lemma at_most_one_per_block s t h i e :
+  NoDup (ids s) -> lookup i s = Some e -> (e_started e = false -> e_cur e = 0) ->
+  exists e', lookup i (fst (begin_block s t h)) = Some e' /\
+    ((e' = e /\ proj i (snd (begin_block s t h)) = []) \/
+     (e_cur e' = e_cur e + 1 /\ proj i (snd (begin_block s t h)) = tick_hooks e)).
+Proof.
+  intros N Hl W. destruct (lookup_In _ _ _ Hl) as [Hin Hi].
+  exists (fst (step_info t h e)). split; [rewrite lookup_begin_block, Hl; reflexivity|].
+  rewrite begin_block_eq. cbn [snd]. rewrite <- Hi, (block_hooks_proj t h s e N Hin).
+  unfold step_info. destruct (should_tick e t); [right|left; auto].
+  unfold tick, tick_hooks. destruct (e_started e); simpl; [auto|]. rewrite (W eq_refl). auto.
+Qed.
 
 (* ---------------------------------------------------------------- outside the precondition *)
 
@@ -662,4 +656,16 @@ Example ex_trace :
   all_hooks (snd (run [] ex_ops)) =
   [BeforeStart 1 1; AfterEnd 1 1; BeforeStart 1 2; AfterEnd 1 2; BeforeStart 1 3;
    BeforeStart 0 1; AfterEnd 1 3; BeforeStart 1 4; AfterEnd 0 1; BeforeStart 0 2].
+Proof. vm_compute. reflexivity. Qed.
+
+Example ex_started_nonvacuous :
+  let s := fst (run [] (firstn 2 ex_ops)) in
+  NoDup (ids s) /\ exists e, lookup 1%nat s = Some e /\ e_started e = true /\ wf_info 100 e.
+Proof.
+  vm_compute. split; [repeat constructor; intros []|]. eexists. split; [reflexivity|].
+  split; [reflexivity|]. split; [discriminate|]. intros _. split; discriminate.
+Qed.
+
+Example ex_pre_nonvacuous :
+  pre {| c_k := 2; c_init := []; c_tr := map (fun o => (o, {| b_ok := true; b_infos := []; b_log := [] |})) ex_ops |} = true.
 Proof. vm_compute. reflexivity. Qed.
